@@ -40,8 +40,8 @@ PLAN = {
     "thorough": {"shards": 16, "cases": 2000000, "timeout_s": 3300, "min_evaluations": 8000000,
                  "min_counters": {"pairs_vs_reference": 8000000, "matrix_pairs": 30000000}},
 }
-ALPHA = "0019aAbz.-_+~^é中"
-SYMBOLS = "019aAbzZ.-_+~^é"
+ALPHA = "0019aAbz.-_+~^é中#: @/="
+SYMBOLS = "019aAbzZ.-_+~^é#: @"
 
 
 def isal(c):
